@@ -199,7 +199,7 @@ func main() {
 	if *timeout > 0 {
 		opts.TimeoutMs = *timeout
 	} else if opts.Thorough {
-		opts.TimeoutMs = 300000
+		opts.TimeoutMs = 120000
 	}
 	if *replay != "" {
 		os.Exit(replayCase(*prop, *replay, *tier == "thorough"))
